@@ -9,7 +9,7 @@ RULE = ('(a) every game of families A and B with the Rabin(1) objective: '
         '(players and actions swapped, Moore<->Mealy, plus_one negated, '
         'holds := ~G_j, goals := ~P_k) is built in a fresh context and the '
         'two regions must partition the full bit range and match the '
-        'arena\'s partition; (c) sequences of Rabin games solved in one '
+        'arena\'s partition; trivial_winning_set of the same game is a subset of the Streett region and, in the Mealy non-strict mode (whose dual is the mode it solves the opponent\'s game in), equals the arena\'s Streett region without recurrence goals; (c) sequences of Rabin games solved in one '
         'reused automaton with modes rotated. non-trivial = reference region neither empty '
         'nor full; distinct = distinct game description')
 ASSUMPTIONS = [
@@ -124,6 +124,28 @@ def run_dual(c, case, acc):
             'dual_region_mismatch', case,
             detail=dict(vars=gm.svars, rabin_dual=sorted(zr),
                         arena_opponent=sorted(allst - ref)))
+
+
+    # trivial-realizability detection built on the duality: the states won
+    # by the Streett player minus those from which the opponent can keep
+    # its action and visit every ~P_k infinitely often.  Whatever the mode,
+    # these are winning states; in the mode whose dual is the mode the
+    # function solves the opponent's game in (Mealy, non-strict), duality
+    # makes the set exactly the Streett region with no recurrence goal left
+    # (the component wins by persistence or by the environment's action
+    # alone).
+    triv, _ = gr1.trivial_winning_set(aut)
+    tt = gm.state_table(triv)
+    if not tt <= ref:
+        acc.violation('trivial_set_contains_losing_state', case, detail=dict(
+            vars=gm.svars, states=sorted(tt - ref)[:6]))
+    elif not c['moore'] and not c['plus_one']:
+        exp = gm.winning(P, [set()], rabin=False)
+        if tt != exp:
+            acc.violation('trivial_set_differs_from_dual', case, detail=dict(
+                vars=gm.svars, missing=sorted(exp - tt)[:6],
+                extra=sorted(tt - exp)[:6]))
+        acc.count('trivial_sets_compared_exactly')
 
 
 def run_seq(case, acc):
